@@ -1,6 +1,7 @@
 """C13 -- interval notations: correspondence with lean/EdzedModel/Interval.lean + independent oracle."""
 import datetime as dt
 import itertools
+import re
 
 from edzed.blocklib import timeinterval as ti
 from edzed.blocklib.timedate import TimeDate, TimeSpan
@@ -155,15 +156,24 @@ def datetime_notations(e, rng):
     parts = [f'{y:04}', md, tm]
     for perm in itertools.permutations(range(3)):
         out.append(((' ' + ws(rng)).join(parts[i] for i in perm), 'trad:' + ''.join('YDT'[i] for i in perm)))
+    # the four parts year / month name / day / time in any of the 24 orders (theorem datetime_parts_in_any_order)
+    four = [f'{y:04}', month_name(mo, rng, False), rng.choice([f'{d}', f'{d:02}']), tm]
+    perm4 = list(itertools.permutations(range(4)))
+    for perm in rng.sample(perm4, 6):
+        out.append((' '.join(four[i] for i in perm), 'trad4:' + ''.join('YMDT'[i] for i in perm)))
     ymd = f'{y:04}-{mo:02}-{d:02}'
     ymond = f'{y:04}-{month_name(mo, rng)}-{d:02}'
     out += [(f'{ymd} {tm}', 'YYYY-MM-DD time'), (f'{tm} {ymd}', 'time YYYY-MM-DD'),
             (f'{ymond} {tm}', 'YYYY-mon-DD time'), (f'{tm}  {ymond}', 'time YYYY-mon-DD'),
-            (f'{y:04} --{mo:02}{d:02} {tm}', 'YYYY --MMDD time')]
+            (f'{y:04} --{mo:02}{d:02} {tm}', 'YYYY --MMDD time'), (f'{y:04} {tm} --{mo:02}-{d:02}', 'YYYY time --MM-DD'),
+            (f'{tm} {y:04} --{mo:02}{d:02}', 'time YYYY --MMDD')]
     frac = f'{us:06d}'.rstrip('0') or '0'
     if us == 0:
         if s == 0:
-            out += [(f'{ymd}T{h:02}:{mi:02}', 'isoext-HM'), (f'{y:04}{mo:02}{d:02}T{h:02}{mi:02}', 'isobasic-HM')]
+            out += [(f'{ymd}T{h:02}:{mi:02}', 'isoext-HM'), (f'{y:04}{mo:02}{d:02}T{h:02}{mi:02}', 'isobasic-HM'),
+                    (f'{ymd}T{h:02}{mi:02}', 'isoext-date basic-time'), (f'{y:04}{mo:02}{d:02}T{h:02}:{mi:02}', 'isobasic-date ext-time')]
+            if mi == 0:
+                out += [(f'{ymd}T{h:02}', 'isoext-H'), (f'{y:04}{mo:02}{d:02}T{h:02}', 'isobasic-H')]
         out += [(f'{ymd}T{h:02}:{mi:02}:{s:02}', 'isoext-HMS'),
                 (f'{y:04}{mo:02}{d:02}T{h:02}{mi:02}{s:02}', 'isobasic-HMS'),
                 (f'{ymd} {h:02}:{mi:02}:{s:02}', 'canonical')]
@@ -461,6 +471,53 @@ def malformed(rng):
     return kind, 7, 'integer where an interval is expected (TypeError)'
 
 
+# ---- digit runs (docs 1A: the year is a 4-digit integer, MM and DD have exactly two digits, the day and the
+# hours/minutes/seconds one or two digits, the fraction 1 to 6 digits): a digit run is ONE field
+
+def digit_run_cases(rng):
+    """traditional date-time strings with a digit run one longer than a field allows, or two fields glued"""
+    mo, d = rng.choice(DAYS)
+    d = min(d, 28)
+    y = rng.randint(1000, 9999)
+    h, mi, sec = rng.randrange(24), rng.randrange(60), rng.randrange(60)
+    k = rng.randint(1, 9)
+    nm = month_name(mo, rng, False)
+    cands = [
+        f'{nm} {y} {k}{h:02}:{mi:02}', f'{nm} {y}{k} {h}:{mi:02}', f'{nm} {y} {h}:{mi:02}:{sec:02}{k}',
+        f'{y}-{mo:02}-{d:02}{h:02}:{mi:02}', f'{d} {nm} {y}{h:02}:{mi:02}', f'{k}{y} {nm} {d} {h}:{mi:02}',
+        f'{nm} {y} {h}:{mi:02}{k}', f'{h}:{mi:02}{k} {nm} {y}', f'{nm} {k} {y}{d:02} {h}:{mi:02}',
+        f'{y}-{mo:02}-{d:02}{k} {h}:{mi:02}', f'{y}{k}-{mo:02}-{d:02} {h}:{mi:02}', f'{nm}{d}{y} {h}:{mi:02}',
+        f'{h}:{mi:02}:{sec:02}.{k}{y} {nm} {d}', f'{nm} {y} {k}{k}{h}:{mi:02}:{sec}',
+    ]
+    # generic: a digit inserted next to a digit, or a blank between two parts removed
+    base = rng.choice([f'{nm} {d} {y} {h}:{mi:02}', f'{y} {d} {nm} {h}:{mi:02}:{sec:02}', f'{h}:{mi:02} {d}. {nm} {y}',
+                       f'{y}-{mo:02}-{d:02} {h}:{mi:02}', f'{h:02}:{mi:02}:{sec:02} {y}-{nm}-{d:02}'])
+    pos = [i for i, c in enumerate(base) if c.isdigit()]
+    i = rng.choice(pos)
+    cands.append(base[:i] + str(k) + base[i:])
+    cands.append(base[:i + 1] + str(k) + base[i + 1:])
+    blanks = [i for i, c in enumerate(base) if c == ' ']
+    j = rng.choice(blanks)
+    cands.append(base[:j] + base[j + 1:])
+    return cands
+
+
+def digit_runs_ok(s):
+    """docs-based rule for a traditional date-time string: every maximal digit run is one field"""
+    years = 0
+    for m in re.finditer(r'[0-9]+', s):
+        n, a = m.end() - m.start(), m.start()
+        is_frac = a >= 1 and s[a - 1] in '.,' and re.search(r'[0-9]{1,2}:[0-9]{1,2}:[0-9]{1,2}$', s[:a - 1]) is not None
+        if is_frac:
+            if n > 6:
+                return False
+        elif n == 4:
+            years += 1
+        elif n > 2:
+            return False
+    return years == 1
+
+
 ALPHABET = list('0123456789') * 2 + list('::..,,--//;; TZW+') + list('abcdefgjlmnoprstuvyJFMASOND')
 
 
@@ -579,6 +636,12 @@ def scenarios(rng, tier):
         kind, spec, cls = malformed(rng)
         yield {'kind': kind, 'spec': spec, 'as_set': isinstance(spec, list) and rng.random() < 0.1 and _hashable(spec),
                'ref': None, 'expect': 'reject', 'probes': [], 'fams': ['malformed: ' + cls]}
+    # 4b. digit runs: a run one digit longer than a field allows / two fields glued (oracle clause malformed_not_misread)
+    other = '2000-01-01T00:00'
+    for _ in range(150 if quick else 3000):
+        for bad in digit_run_cases(rng):
+            yield {'kind': 'dt', 'spec': [[other, bad]], 'as_set': False, 'ref': None, 'expect': None, 'probes': [],
+                   'fams': ['digit-run'], 'dr': [bad]}
     # 5. character-level mutations of valid strings (no expectation)
     n = 0
     want = 20000 if quick else 250000
@@ -801,6 +864,15 @@ def oracle(scn, res):
                         'what': f'{kind} {scn["spec"]!r}: unexpected exception {res["error"]}'})
         return out
     aslist = res['aslist']
+    for ep in scn.get('dr', []):
+        # written from docs/sblocks2.rst 1A, not from the model: the string was ACCEPTED although one of its digit
+        # runs cannot be a single field (year = 4 digits, MM/DD = 2, day/H/M/S = 1 or 2, fraction = 1..6)
+        if 'T' not in ep and not digit_runs_ok(ep):
+            out.append({'clause': 'malformed_not_misread',
+                        'what': f'date-time {ep!r} has a digit run that is no single field, yet it is accepted as '
+                                f'{[r for r in aslist if r][0][1]!r}',
+                        'sig': {'shape': 'digit_run_split'}})
+            return out
     if expect == 'reject':
         out.append({'clause': 'malformed_rejected',
                     'what': f'malformed {kind} {scn["spec"]!r} ({scn.get("fams")}) accepted as {aslist!r}'})
